@@ -52,11 +52,12 @@ type Config struct {
 
 type Searcher struct {
 	Config
-	counts    map[rules.Pos]int
-	Nodes     int
-	Over      bool
-	DrawMet   bool // a repetition or fifty-move draw was met inside the tree (C11's precondition)
-	MateMixed bool // probe: a node whose children are mated-in-k with >=2 distinct k
+	counts       map[rules.Pos]int
+	Nodes        int
+	Over         bool
+	DrawMet      bool // a repetition or fifty-move draw was met inside the tree (C11's precondition)
+	NoneExplored bool // probe: a node with legal moves none of which the exploration selects
+	MateMixed    bool // probe: a node whose children are mated-in-k with >=2 distinct k
 }
 
 type node struct {
@@ -124,6 +125,10 @@ func (s *Searcher) Root(root node, depth int) (Val, []rules.Move, map[rules.Move
 			best, first = v, false
 		}
 	}
+	if first {
+		s.NoneExplored = true
+		return Lost, nil, per
+	}
 	var opt []rules.Move
 	for _, m := range legal {
 		if v, ok := per[m]; ok && v.Key() == best.Key() {
@@ -177,8 +182,11 @@ func (s *Searcher) value(n node, depth int) Val {
 		s.MateMixed = true
 	}
 	if first {
-		// nothing explored although legal moves exist: the harness' predicates never allow this
-		panic("msearch: exploration predicate kept no legal move")
+		// Legal moves exist but the exploration selects none of them: the maximum over an empty set.
+		// The side to move has nothing it is allowed to try: minus infinity, i.e. "lost" (not a real
+		// mate, but it counts towards mate distances exactly like one on the way up).
+		s.NoneExplored = true
+		return Lost
 	}
 	return best
 }
